@@ -111,7 +111,16 @@ def r3_merge_and_removal(rep, ctx):
 
     ok = MQ[0] == "call" and list(MQ[2]) == [copy_of("quantity1"), copy_of("quantity2"), P["value1"], P["value2"]]
     rep.check(ok, "C04.R3", "operands-in-order", "map 1 is a copy of the left operand's map and map 2 of the right one's", "the working maps are matched as %s" % show(MQ, 200), node=mq[0], fn=fn)
-    MAP1, MAP2, V1, V2 = (("sub", MQ, ("const", i_)) for i_ in range(4))
+    # the calling convention of _MatchQuantities, read from its return: which positions hand back the two maps
+    # (they are matched in place, so a map that is not returned is the object that was passed) and the two values
+    from .c03 import mq_convention
+    pos = mq_convention(m)
+    if "v1" not in pos or "v2" not in pos:
+        raise AnalysisError("_MatchQuantities: the positions of the two matched values in its result were not recognised: %s" % ast.unparse(pos["return"].value))
+    arg = list(MQ[2]) if MQ[0] == "call" else [None] * 4
+    MAP1 = ("sub", MQ, ("const", pos["map1"])) if "map1" in pos else arg[0]
+    MAP2 = ("sub", MQ, ("const", pos["map2"])) if "map2" in pos else arg[1]
+    V1, V2 = ("sub", MQ, ("const", pos["v1"])), ("sub", MQ, ("const", pos["v2"]))
     # exponent merges: operation_exp(<left exponent or 0>, <right exponent>)
     calls = [c for c in own_nodes(fn.node) if isinstance(c, ast.Call) and res.term(c.func) == P["operation_exp"]]
     rep.floor("C04.R3", "exponent merges", len(calls), 1)
